@@ -61,7 +61,7 @@ Proof.
 Qed.
 
 Lemma ctx_eqb_refl c : ctx_eqb c c = true.
-Proof. unfold ctx_eqb. now rewrite !N.eqb_refl. Qed.
+Proof. unfold ctx_eqb. now rewrite !N.eqb_refl, Bool.eqb_reflx. Qed.
 Lemma ctxs_eqb_refl l : ctxs_eqb l l = true.
 Proof. apply list_eqb_refl, ctx_eqb_refl. Qed.
 Lemma ns_eqb_refl l : ns_eqb l l = true.
@@ -681,10 +681,20 @@ Qed.
 
 Lemma task_eqb_refl t : task_eqb t t = true.
 Proof.
-  unfold task_eqb. rewrite !N.eqb_refl, Bool.eqb_reflx, ctxs_eqb_refl, ns_eqb_refl. reflexivity.
+  unfold task_eqb. rewrite !N.eqb_refl, !Bool.eqb_reflx, ctxs_eqb_refl, ns_eqb_refl. reflexivity.
 Qed.
 Lemma tasks_eqb_refl l : tasks_eqb l l = true.
 Proof. apply list_eqb_refl, task_eqb_refl. Qed.
+
+(* the task, field by field *)
+Lemma task_eqb_eta t :
+  t_meta t = true ->
+  task_eqb t (mkTaskK (t_id t) (t_hook t) (t_ty t) true (t_ctxs t) (t_mids t) (t_qn t)
+                      (t_kube t) (t_group t) (t_exec t)) = true.
+Proof.
+  intros Hm. unfold task_eqb. cbn [t_id t_hook t_ty t_meta t_ctxs t_mids t_qn t_kube t_group t_exec].
+  rewrite Hm, !N.eqb_refl, !Bool.eqb_reflx, ctxs_eqb_refl, ns_eqb_refl. reflexivity.
+Qed.
 
 Lemma same_queue_get before after n q :
   get_by_name n before = Some q -> get_by_name n after = Some q -> same_queue before after n = true.
@@ -700,9 +710,9 @@ Proof.
   - apply IH; [exact (NoDup_app_r _ _ _ Hnd) | exact H].
 Qed.
 
-Lemma queue_meta qs n q :
-  forallb (fun p : N * list task => forallb t_meta (snd p)) qs = true ->
-  get_by_name n qs = Some q -> forallb t_meta q = true.
+Lemma queue_meta (f : task -> bool) qs n q :
+  forallb (fun p : N * list task => forallb f (snd p)) qs = true ->
+  get_by_name n qs = Some q -> forallb f q = true.
 Proof.
   induction qs as [|p qs IH]; [discriminate|]. cbn [forallb get_by_name]. intros H.
   apply andb_true_iff in H as [H1 H2]. destruct (N.eqb (fst p) n); intros E.
@@ -715,32 +725,31 @@ Proof. cbn [remove_id]. now rewrite N.eqb_refl. Qed.
 Lemma replace_id_head t t' r : t_id t' = t_id t -> replace_id t' (t :: r) = t' :: r.
 Proof. intros E. cbn [replace_id]. now rewrite E, N.eqb_refl. Qed.
 
-(* what the handler does with the head [t] of the queue its name points to *)
-Lemma head_run qs t rest :
+(* what the combiner does with the head [t] of the queue its name points to, for any stop rule *)
+Lemma head_run stop qs t rest :
   t_meta t = true -> get_by_name (t_qn t) qs = Some (t :: rest) -> NoDup (map t_id (t :: rest)) ->
-  let b := block nostop t rest in
+  let b := block stop t rest in
   let C := t_ctxs t ++ flat_map t_ctxs b in
-  handle_hook_run t qs
-  = (mkRun (t_hook t) (if is_nil b then t_ctxs t else compact C),
-     mkTask (t_id t) (t_hook t) (t_ty t) true (if is_nil b then t_ctxs t else compact C)
-            (t_mids t ++ flat_map t_mids b) (t_qn t),
-     set_queue (t_qn t) (t :: after_block nostop t rest) qs).
+  let p := combine_set stop t qs [] in
+  delivered_ctxs t (fst p) = (if is_nil b then t_ctxs t else compact C)
+  /\ delivered_mids t (fst p) = t_mids t ++ flat_map t_mids b
+  /\ snd p = set_queue (t_qn t) (t :: after_block stop t rest) qs.
 Proof.
-  intros Hm Hq Hnd. cbv zeta. unfold handle_hook_run, combine_set. rewrite Hq, arrive_nil.
+  intros Hm Hq Hnd. cbv zeta. unfold combine_set. rewrite Hq, arrive_nil.
   cbn [arrivals fst snd].
   assert (Hnd' : NoDup (map t_id (t :: rest ++ []))) by (now rewrite app_nil_r).
-  change (fun _ : task => false) with nostop.
-  rewrite (combine_at_char nostop t t rest [] Hm eq_refl Hnd'). rewrite !app_nil_r. rewrite Hm.
-  destruct (block nostop t rest) as [|b0 b] eqn:Eb; cbn [fst snd is_nil delivered_ctxs delivered_mids r_ctxs r_mids].
-  - cbn [flat_map]. now rewrite app_nil_r.
-  - f_equal. f_equal. f_equal.
+  rewrite (combine_at_char stop t t rest [] Hm eq_refl Hnd'). rewrite !app_nil_r.
+  destruct (block stop t rest) as [|b0 b] eqn:Eb; cbn [fst snd is_nil delivered_ctxs delivered_mids r_ctxs r_mids].
+  - cbn [flat_map]. rewrite app_nil_r. repeat split; reflexivity.
+  - split; [reflexivity|]. split; [|reflexivity].
     destruct (t_mids t ++ flat_map t_mids (b0 :: b)) eqn:E; [|reflexivity].
     apply app_eq_nil in E as [E1 E2]. now rewrite E1.
 Qed.
 
 Lemma wf_state_props qs :
   wf_state qs = true ->
-  NoDup (all_ids qs) /\ forallb (fun p : N * list task => forallb t_meta (snd p)) qs = true.
+  NoDup (all_ids qs)
+  /\ forallb (fun p : N * list task => forallb (fun t => t_meta t && has_ctx t) (snd p)) qs = true.
 Proof.
   unfold wf_state. intros H. apply andb_true_iff in H as [H Hm]. apply andb_true_iff in H as [_ Hn].
   split; [now apply nodupb_NoDup | exact Hm].
@@ -756,17 +765,106 @@ Proof.
   cbn [option_map arrivals]. now rewrite app_nil_r.
 Qed.
 
-Lemma handle_names t qs : map fst (snd (handle_hook_run t qs)) = map fst qs.
-Proof. unfold handle_hook_run. cbn [snd]. apply combine_set_names. Qed.
-
-Lemma handle_others t qs n :
-  n <> t_qn t -> get_by_name n (snd (handle_hook_run t qs)) = get_by_name n qs.
+Lemma handle_names v0 t qs : map fst (snd (handle_hook_run v0 t qs)) = map fst qs.
 Proof.
-  intros Hn. unfold handle_hook_run. cbn [snd]. rewrite (combine_set_others _ t qs [] n Hn).
+  unfold handle_hook_run. destruct (gate v0 t); cbn [snd]; [apply combine_set_names | reflexivity].
+Qed.
+
+Lemma handle_others v0 t qs n :
+  n <> t_qn t -> get_by_name n (snd (handle_hook_run v0 t qs)) = get_by_name n qs.
+Proof.
+  intros Hn. unfold handle_hook_run. destruct (gate v0 t); cbn [snd]; [|reflexivity].
+  rewrite (combine_set_others _ t qs [] n Hn).
   destruct (get_by_name n qs); cbn [option_map arrivals]; [now rewrite app_nil_r | reflexivity].
 Qed.
 
-Lemma P_step_holds qs st : P_step qs st (model_step qs st) = true.
+(* a head that is not to be run never reaches the combiner; neither does the head of a v0 hook nor an
+   ungrouped Synchronization: the task and the queue set are what they were *)
+Lemma gate_closed v0 t qs :
+  gate v0 t = false ->
+  handle_hook_run v0 t qs = ((if should_run v0 t then [mkRun (t_hook t) (t_ctxs t)] else []), t, qs).
+Proof. intros G. unfold handle_hook_run. now rewrite G. Qed.
+
+Lemma not_run_gate_closed v0 t : should_run v0 t = false -> gate v0 t = false.
+Proof. intros H. unfold gate, should_combine. now rewrite H. Qed.
+
+Lemma v0_gate_closed t : gate true t = false.
+Proof. unfold gate, should_combine. cbn [negb]. now rewrite andb_false_r. Qed.
+
+(* the spec's vocabulary and the handler's *)
+Lemma not_executed_should_run v0 t : not_executed v0 t = negb (should_run v0 t).
+Proof. unfold not_executed, should_run, synchronization, is_sync. now rewrite negb_involutive. Qed.
+
+Lemma block_stop_all t rest : block stop_all t rest = [] /\ after_block stop_all t rest = rest.
+Proof.
+  unfold block, after_block, mergeable, stop_all. destruct rest as [|x r]; [split; reflexivity|].
+  cbn [take_while drop_while negb]. rewrite andb_false_r. split; reflexivity.
+Qed.
+
+(* gate open (v1, run): the stop rule of the spec is the handler's stopCombineFn *)
+Lemma gate_open_rule t : gate false t = true -> stop_rule t = stop_combine t.
+Proof.
+  unfold gate, should_combine, stop_rule, stop_combine. change (synchronization t) with (is_sync t).
+  intros G. apply andb_true_iff in G as [_ G]. apply negb_true_iff in G. rewrite G.
+  destruct (is_sync t); reflexivity.
+Qed.
+
+(* gate closed although the hook is v1 and runs: an ungrouped Synchronization *)
+Lemma gate_closed_rule t : gate false t = false -> should_run false t = true -> stop_rule t = stop_all.
+Proof.
+  unfold gate, should_combine, stop_rule. change (synchronization t) with (is_sync t).
+  intros G R. rewrite R in G. cbn [negb andb] in G.
+  apply negb_false_iff in G. now rewrite G.
+Qed.
+
+(* the worker's step on an executed head that went through the combiner *)
+Lemma step_combined sp qs t rest ok :
+  t_meta t = true -> get_by_name (t_qn t) qs = Some (t :: rest) -> NoDup (map t_id (t :: rest)) ->
+  let p := combine_set sp t qs [] in
+  let t' := set_combined t (delivered_ctxs t (fst p)) (delivered_mids t (fst p)) in
+  let q' := match get_by_name (t_qn t) (snd p) with Some q' => q' | None => [] end in
+  executed_with sp t rest (t_qn t)
+    (mkSO [mkRun (t_hook t) (delivered_ctxs t (fst p))] ok
+          (set_queue (t_qn t) (if ok then remove_id (t_id t) q' else replace_id t' q') (snd p))) = true.
+Proof.
+  intros Hm Hq Hnd. cbv zeta.
+  destruct (head_run sp qs t rest Hm Hq Hnd) as (Hc & Hmi & Hs). cbv zeta in Hc, Hmi, Hs.
+  rewrite Hc, Hmi, Hs. unfold executed_with. cbn [st_runs st_state st_success].
+  rewrite named_get_by_name.
+  rewrite (get_set_same (t_qn t) (t :: after_block sp t rest) qs _ Hq).
+  rewrite set_set, (get_set_same (t_qn t) _ qs _ Hq).
+  cbn [ru_hook ru_ctxs]. rewrite N.eqb_refl. cbn [andb].
+  assert (Ht : forall cs ms, task_eqb (set_combined t cs ms)
+             (mkTaskK (t_id t) (t_hook t) (t_ty t) true cs ms (t_qn t) (t_kube t) (t_group t) (t_exec t)) = true).
+  { intros cs ms. unfold set_combined. rewrite Hm. apply task_eqb_refl. }
+  destruct (block sp t rest) as [|b0 b] eqn:Eb; cbn [is_nil orb flat_map].
+  - rewrite !app_nil_r, left_out_ok_refl. cbn [andb].
+    destruct ok; [rewrite remove_id_head | rewrite replace_id_head by reflexivity]; cbn [app].
+    + apply tasks_eqb_refl.
+    + unfold tasks_eqb. cbn [list_eqb]. rewrite Ht. apply tasks_eqb_refl.
+  - rewrite left_out_ok_compact, compact_runs, ctxs_eqb_refl. cbn [andb].
+    destruct ok; [rewrite remove_id_head | rewrite replace_id_head by reflexivity]; cbn [app].
+    + apply tasks_eqb_refl.
+    + unfold tasks_eqb. cbn [list_eqb]. rewrite Ht. apply tasks_eqb_refl.
+Qed.
+
+(* the worker's step on an executed head that did not go through the combiner *)
+Lemma step_alone qs t rest ok :
+  t_meta t = true -> get_by_name (t_qn t) qs = Some (t :: rest) ->
+  executed_with stop_all t rest (t_qn t)
+    (mkSO [mkRun (t_hook t) (t_ctxs t)] ok
+          (set_queue (t_qn t) (if ok then remove_id (t_id t) (t :: rest) else replace_id t (t :: rest)) qs)) = true.
+Proof.
+  intros Hm Hq. unfold executed_with. cbn [st_runs st_state st_success].
+  destruct (block_stop_all t rest) as [Eb Ea]. rewrite Eb, Ea.
+  rewrite named_get_by_name, (get_set_same (t_qn t) _ qs _ Hq).
+  cbn [ru_hook ru_ctxs flat_map is_nil orb]. rewrite !app_nil_r, N.eqb_refl, left_out_ok_refl. cbn [andb].
+  destruct ok; [rewrite remove_id_head | rewrite replace_id_head by reflexivity]; cbn [app].
+  - apply tasks_eqb_refl.
+  - unfold tasks_eqb. cbn [list_eqb]. rewrite (task_eqb_eta t Hm). apply tasks_eqb_refl.
+Qed.
+
+Lemma P_step_holds v0s qs st : P_step v0s qs st (model_step v0s qs st) = true.
 Proof.
   unfold P_step. destruct (wf_state qs) eqn:W; [|reflexivity].
   destruct (wf_state_props qs W) as [Hnd Hmeta].
@@ -790,19 +888,26 @@ Proof.
         -- destruct (N.eqb (t_qn t) qn) eqn:Eqn; [|reflexivity]. cbn [andb].
            apply N.eqb_eq in Eqn. subst qn.
            assert (Hm : t_meta t = true).
-           { pose proof (queue_meta qs _ _ Hmeta Eq) as H. cbn [forallb] in H. now apply andb_true_iff in H as [H _]. }
-           pose proof (head_run qs t rest Hm Eq (queue_nodup qs _ _ Hnd Eq)) as HR. cbv zeta in HR.
-           rewrite HR. cbn [fst snd]. rewrite named_get_by_name.
-           rewrite (get_set_same (t_qn t) (t :: after_block nostop t rest) qs _ Eq).
-           rewrite set_set, (get_set_same (t_qn t) _ qs _ Eq).
-           cbn [ru_hook ru_ctxs]. rewrite N.eqb_refl. cbn [andb].
-           destruct (block nostop t rest) as [|b0 b] eqn:Eb; cbn [is_nil orb flat_map].
-           ++ rewrite !app_nil_r, left_out_ok_refl. cbn [andb].
-              destruct ok; [rewrite remove_id_head | rewrite replace_id_head by reflexivity];
-                cbn [app]; apply tasks_eqb_refl.
-           ++ rewrite left_out_ok_compact, compact_runs, ctxs_eqb_refl. cbn [andb].
-              destruct ok; [rewrite remove_id_head | rewrite replace_id_head by reflexivity];
-                cbn [app]; apply tasks_eqb_refl.
+           { pose proof (queue_meta _ qs _ _ Hmeta Eq) as H. cbn [forallb] in H.
+             apply andb_true_iff in H as [H _]. now apply andb_true_iff in H as [H _]. }
+           pose proof (queue_nodup qs _ _ Hnd Eq) as Hndq.
+           set (v0 := mem_N (t_hook t) v0s).
+           rewrite not_executed_should_run.
+           destruct (should_run v0 t) eqn:R; cbn [negb].
+           ++ (* the head is executed *)
+              destruct v0 eqn:V.
+              ** (* a v0 hook: never through the combiner *)
+                 rewrite (gate_closed true t qs (v0_gate_closed t)), R. cbn [fst snd status_ok].
+                 rewrite Eq. apply orb_true_iff. left. now apply step_alone.
+              ** destruct (gate false t) eqn:G.
+                 --- unfold handle_hook_run. rewrite G. cbn [fst snd status_ok].
+                     rewrite (gate_open_rule t G). now apply step_combined.
+                 --- rewrite (gate_closed false t qs G), R. cbn [fst snd status_ok].
+                     rewrite Eq, (gate_closed_rule t G R). now apply step_alone.
+           ++ (* the head is not executed *)
+              rewrite (gate_closed v0 t qs (not_run_gate_closed v0 t R)), R. cbn [fst snd status_ok is_nil andb].
+              rewrite Eq, remove_id_head, named_get_by_name, (get_set_same (t_qn t) _ qs _ Eq).
+              apply tasks_eqb_refl.
       * (* another task type: no hook run, removed *)
         cbn [st_state st_runs st_success]. rewrite map_fst_set_queue, ns_eqb_refl. cbn [andb].
         rewrite andb_true_r. apply forallb_forall. intros n Hn.
@@ -813,29 +918,119 @@ Proof.
       apply forallb_forall. intros n Hn. destruct (get_in_names n qs Hn) as [q Hq].
       exact (same_queue_get _ _ _ q Hq Hq).
   - (* a task that sits in no queue *)
-    cbn [model_step st_state st_runs]. unfold handle_hook_run. cbn [fst snd].
-    rewrite combine_set_names, ns_eqb_refl. cbn [andb].
-    destruct (t_meta t && negb (mem_N (t_id t) (all_ids qs))); [|reflexivity].
+    cbn [model_step st_state st_runs].
+    rewrite handle_names, ns_eqb_refl. cbn [andb].
+    destruct (t_meta t && has_ctx t && negb (mem_N (t_id t) (all_ids qs))); [|reflexivity].
+    set (v0 := mem_N (t_hook t) v0s).
     apply andb_true_iff. split.
     + apply forallb_forall. intros n Hn. destruct (N.eqb n (t_qn t)) eqn:E; [reflexivity|].
-      apply N.eqb_neq in E. cbn [orb]. now apply others_same.
+      apply N.eqb_neq in E. cbn [orb]. destruct (get_in_names n qs Hn) as [q Hq].
+      apply (same_queue_get _ _ _ q Hq). now rewrite handle_others.
     + rewrite named_get_by_name. destruct (get_by_name (t_qn t) qs) eqn:Eq; [reflexivity|].
-      unfold combine_set. rewrite Eq. cbn [fst delivered_ctxs ru_hook ru_ctxs].
-      now rewrite N.eqb_refl, ctxs_eqb_refl.
+      rewrite not_executed_should_run. unfold handle_hook_run.
+      destruct (gate v0 t) eqn:G.
+      * assert (R : should_run v0 t = true).
+        { unfold gate, should_combine in G. apply andb_true_iff in G as [G _]. now apply andb_true_iff in G as [G _]. }
+        rewrite R. cbn [negb fst]. unfold combine_set. rewrite Eq. cbn [fst delivered_ctxs ru_hook ru_ctxs].
+        now rewrite N.eqb_refl, ctxs_eqb_refl.
+      * cbn [fst]. destruct (should_run v0 t); cbn [negb is_nil]; [|reflexivity].
+        cbn [ru_hook ru_ctxs]. now rewrite N.eqb_refl, ctxs_eqb_refl.
 Qed.
 
-Lemma P_session_holds steps : forall qs, P_session qs steps (run_session qs steps) = true.
+Lemma P_session_holds v0s steps : forall qs, P_session v0s qs steps (run_session v0s qs steps) = true.
 Proof.
   induction steps as [|st steps IH]; intros qs; [reflexivity|].
   cbn [run_session P_session]. now rewrite P_step_holds, IH.
 Qed.
 
 (* the explicit form for the webhook handlers' tasks: a task whose name no queue has is run with
-   exactly its own contexts and the queue set afterwards IS the queue set before *)
-Lemma loose_run_leaves_queues qs t ok :
+   exactly its own contexts - unless it is not to be run at all - and the queue set afterwards IS the
+   queue set before *)
+Lemma loose_run_leaves_queues v0s qs t ok :
   ~ In (t_qn t) (map fst qs) ->
-  model_step qs (SLoose t ok) = mkSO [mkRun (t_hook t) (t_ctxs t)] ok qs.
+  model_step v0s qs (SLoose t ok)
+  = if should_run (mem_N (t_hook t) v0s) t then mkSO [mkRun (t_hook t) (t_ctxs t)] ok qs
+    else mkSO [] true qs.
 Proof.
   intros H. cbn [model_step]. unfold handle_hook_run.
-  rewrite (combine_set_no_queue _ t qs [] H), arrive_nil. reflexivity.
+  rewrite (combine_set_no_queue _ t qs [] H), arrive_nil. cbn [fst snd delivered_ctxs].
+  destruct (gate (mem_N (t_hook t) v0s) t) eqn:G.
+  - assert (R : should_run (mem_N (t_hook t) v0s) t = true).
+    { unfold gate, should_combine in G. apply andb_true_iff in G as [G _]. now apply andb_true_iff in G as [G _]. }
+    now rewrite R.
+  - cbn [fst snd]. destruct (should_run (mem_N (t_hook t) v0s) t); reflexivity.
+Qed.
+
+(* a head that is not executed: no run, Success, the head leaves - and the queue set is otherwise
+   exactly what it was: nothing is merged, every other task of every queue keeps its place *)
+Lemma skipped_head_merges_nothing v0s qs qn t rest ok :
+  get_by_name qn qs = Some (t :: rest) -> t_ty t = 0%N ->
+  should_run (mem_N (t_hook t) v0s) t = false ->
+  model_step v0s qs (SHead qn ok) = mkSO [] true (set_queue qn rest qs).
+Proof.
+  intros Hq Hty R. cbn [model_step]. rewrite Hq, Hty. cbn [N.eqb].
+  rewrite (gate_closed _ t qs (not_run_gate_closed _ t R)), R. cbn [fst snd status_ok].
+  now rewrite Hq, remove_id_head.
+Qed.
+
+(* the combiner is not even called for a head that is not run, for a v0 hook and for an ungrouped
+   Synchronization: the handler leaves the task and every queue as they are *)
+Lemma closed_gate_touches_nothing v0 t qs :
+  should_run v0 t = false \/ v0 = true \/ (t_kube t = true /\ is_sync t = true /\ t_group t = 0%N) ->
+  snd (fst (handle_hook_run v0 t qs)) = t /\ snd (handle_hook_run v0 t qs) = qs.
+Proof.
+  intros H. assert (G : gate v0 t = false).
+  { unfold gate, should_combine. destruct H as [H|[H|(H1 & H2 & H3)]].
+    - now rewrite H.
+    - subst v0. cbn [negb]. now rewrite andb_false_r.
+    - rewrite H1, H2, H3. cbn [N.eqb andb negb]. now rewrite andb_false_r. }
+  rewrite (gate_closed v0 t qs G). split; reflexivity.
+Qed.
+
+(* an executed Synchronization head never takes in a Synchronization that is itself not to be executed,
+   and an executed head only ever takes in what the stop rule allows: the queue afterwards begins, behind
+   the head, with the first task the rule refuses *)
+Lemma executed_head_block v0s qs t rest ok :
+  wf_state qs = true -> get_by_name (t_qn t) qs = Some (t :: rest) -> t_ty t = 0%N ->
+  mem_N (t_hook t) v0s = false -> should_run false t = true ->
+  let o := model_step v0s qs (SHead (t_qn t) ok) in
+  let b := block (stop_rule t) t rest in
+  st_runs o = [mkRun (t_hook t) (if is_nil b then t_ctxs t else spec_compact (t_ctxs t ++ flat_map t_ctxs b))]
+  /\ map t_id (match get_by_name (t_qn t) (st_state o) with Some q => q | None => [] end)
+     = (if ok then [] else [t_id t]) ++ map t_id (after_block (stop_rule t) t rest)
+  /\ Forall (fun x => exempt x = false \/ synchronization t = false) b.
+Proof.
+  intros W Hq Hty V R. cbv zeta.
+  destruct (wf_state_props qs W) as [Hnd Hmeta].
+  assert (Hm : t_meta t = true).
+  { pose proof (queue_meta _ qs _ _ Hmeta Hq) as H. cbn [forallb] in H.
+    apply andb_true_iff in H as [H _]. now apply andb_true_iff in H as [H _]. }
+  pose proof (queue_nodup qs _ _ Hnd Hq) as Hndq.
+  split; [|split].
+  - cbn [model_step]. rewrite Hq, Hty, V. cbn [N.eqb st_runs].
+    destruct (gate false t) eqn:G.
+    + unfold handle_hook_run. rewrite G. cbn [fst].
+      destruct (head_run (stop_combine t) qs t rest Hm Hq Hndq) as (Hc & _ & _). cbv zeta in Hc.
+      rewrite Hc, (gate_open_rule t G), compact_runs. reflexivity.
+    + rewrite (gate_closed false t qs G), R, (gate_closed_rule t G R). cbn [fst].
+      destruct (block_stop_all t rest) as [Eb _]. now rewrite Eb.
+  - cbn [model_step]. rewrite Hq, Hty, V. cbn [N.eqb st_state].
+    destruct (gate false t) eqn:G.
+    + unfold handle_hook_run. rewrite G. cbn [fst snd status_ok].
+      destruct (head_run (stop_combine t) qs t rest Hm Hq Hndq) as (_ & _ & Hs). cbv zeta in Hs.
+      rewrite Hs, (gate_open_rule t G).
+      rewrite (get_set_same (t_qn t) (t :: after_block (stop_combine t) t rest) qs _ Hq).
+      rewrite set_set, (get_set_same (t_qn t) _ qs _ Hq).
+      destruct ok; [rewrite remove_id_head | rewrite replace_id_head by reflexivity]; reflexivity.
+    + rewrite (gate_closed false t qs G), R, (gate_closed_rule t G R). cbn [fst snd status_ok].
+      rewrite Hq, (get_set_same (t_qn t) _ qs _ Hq).
+      destruct (block_stop_all t rest) as [_ Ea]. rewrite Ea.
+      destruct ok; [rewrite remove_id_head | rewrite replace_id_head by reflexivity]; reflexivity.
+  - apply Forall_forall. intros x Hx.
+    pose proof (take_while_all _ (mergeable (stop_rule t) t) rest) as Hall.
+    fold (block (stop_rule t) t rest) in Hall. rewrite Forall_forall in Hall. specialize (Hall x Hx).
+    unfold mergeable in Hall. apply andb_true_iff in Hall as [_ Hst]. apply negb_true_iff in Hst.
+    unfold stop_rule in Hst.
+    destruct (t_kube t && synchronization t && N.eqb (t_group t) 0); [discriminate|].
+    destruct (synchronization t); [left; exact Hst | right; reflexivity].
 Qed.
